@@ -22,11 +22,13 @@ type recStats struct {
 
 func (s *recStats) add(k string) { s.mu.Lock(); s.incs = append(s.incs, k); s.mu.Unlock() }
 
-func (s *recStats) ResetCounterTo(key string, value int64)     {}
-func (s *recStats) ResetCounter(key string)                    {}
-func (s *recStats) IncrementCounterBy(key string, value int64) { s.add(fmt.Sprintf("%s+%d", key, value)) }
-func (s *recStats) IncrementCounter(key string)                { s.add(key) }
-func (s *recStats) AddSample(key string, value int64)          {}
+func (s *recStats) ResetCounterTo(key string, value int64) {}
+func (s *recStats) ResetCounter(key string)                {}
+func (s *recStats) IncrementCounterBy(key string, value int64) {
+	s.add(fmt.Sprintf("%s+%d", key, value))
+}
+func (s *recStats) IncrementCounter(key string)       { s.add(key) }
+func (s *recStats) AddSample(key string, value int64) {}
 
 type recLogger struct {
 	mu     sync.Mutex
